@@ -12,11 +12,18 @@ use zeroize::Zeroize;
 
 type H = Havoc32; // n = 32: every byte of the 32-byte seed container is observable through as_slice()
 
+#[cfg(kani)]
 macro_rules! harness_real_zeroize {
     (fn $name:ident() unwind $unwind:literal $body:block) => {
         #[kani::proof]
         #[kani::unwind($unwind)]
         #[kani::stub(zeroize::optimization_barrier, crate::models::noop_barrier)]
+        pub fn $name() $body
+    };
+}
+#[cfg(not(kani))]
+macro_rules! harness_real_zeroize {
+    (fn $name:ident() unwind $unwind:literal $body:block) => {
         pub fn $name() $body
     };
 }
